@@ -1,3 +1,255 @@
+import Std.Data.HashMap
 import Cppcms.Common
-/-! Line-protocol driver for C05 (stub: model not written yet). -/
-def main : IO Unit := Cppcms.lineLoop () (fun s _ => (s, "unimplemented"))
+import Cppcms.C05.Model
+import Cppcms.C05.Spec
+/-!
+Line-protocol driver for C05.
+
+The cryptographic primitives of the model (`MacAlg`, `CbcAlg`) are instantiated from a table of ORACLE
+answers recorded from the real library (`O <query> <answer>` lines: HMAC tags, CBC encryptions and
+decryptions of concrete byte strings).  For every op the driver first lists the oracle queries the
+evaluation can depend on; when one is missing it prints `need <query>;…` (the check obtains the answers
+from the harness' primitive ops and re-runs the object's lines; later lines of the object are evaluated
+speculatively with the state unchanged and are final only once no line of the object needs anything).  Otherwise it evaluates the model's
+definitions.  As a guard against a query outside that list, the model is evaluated twice with different
+stand-ins for missing answers; a different result is reported as `oracle-miss`.
+
+`J`/`JI` lines evaluate the property predicate `Spec.judgeLoad` on the implementation's answers.
+-/
+open Cppcms Cppcms.C05
+
+abbrev Tbl := Std.HashMap String String
+
+structure Obj where
+  cfg : EncCfg
+  st : Option AesSt
+  blocked : Bool
+
+structure St where
+  tbl : Tbl := {}
+  objs : Std.HashMap String Obj := {}
+  issued : Std.HashMap String (List Spec.Issued) := {}
+
+def qMac (name : String) (k m : Bytes) : String := s!"mac {name} {toHex k} {toHex m}"
+def qEnc (name : String) (k iv d : Bytes) : String := s!"cbcenc {name} {toHex k} {toHex iv} {toHex d}"
+def qDec (name : String) (k iv d : Bytes) : String := s!"cbcdec {name} {toHex k} {toHex iv} {toHex d}"
+
+def ans (tbl : Tbl) (q : String) : Option Bytes :=
+  match tbl.get? q with
+  | some v => parseHex v
+  | none => none
+
+/-- the primitives for this run; `fill` is the byte used to fabricate a missing answer -/
+def macOf (tbl : Tbl) (fill : UInt8) (name : String) : MacAlg :=
+  let ds := (digestSize name).getD 0
+  { tag := fun k m => (ans tbl (qMac name k m)).getD (List.replicate ds fill), size := ds }
+
+def cbcOf (tbl : Tbl) (fill : UInt8) (name : String) : CbcAlg :=
+  { enc := fun k iv d => (ans tbl (qEnc name k iv d)).getD (List.replicate d.length fill),
+    dec := fun k iv d => (ans tbl (qDec name k iv d)).getD (List.replicate d.length fill),
+    block := Gen.cbcBlock, keySize := (cbcKeySize name).getD 0 }
+
+def resStr : Res Bytes → String
+  | .ok b => "ok " ++ toHex b
+  | .fail => "fail"
+  | .ub => "ub"
+
+def errStr : CfgErr → String
+  | .noMethod => "noMethod" | .bothStyles => "bothStyles" | .cbcWithoutMac => "cbcWithoutMac"
+  | .unknownEncryptor => "unknownEncryptor" | .keyTooSmall => "keyTooSmall" | .unknownCbc => "unknownCbc"
+  | .badKeyLength => "badKeyLength" | .unknownHash => "unknownHash"
+
+/-- queries decryption of `cipher` can depend on (generous: independent of the source's size checks) -/
+def candDec (cfg : EncCfg) (st : Option AesSt) (cipher : Bytes) : List String :=
+  match cfg with
+  | .hmac algo key =>
+    let ds := (digestSize algo).getD 0
+    if ds ≤ cipher.length then [qMac algo key (cipher.take (cipher.length - ds))] else []
+  | .aes cbc ck mac mk =>
+    let ds := (digestSize mac).getD 0
+    if ds ≤ cipher.length then
+      let body := cipher.take (cipher.length - ds)
+      let iv := match st with | some s => s.ivDec | none => []
+      qMac mac mk body :: (if body.length % 16 == 0 && body.length > 0 then [qDec cbc ck iv body] else [])
+    else []
+
+/-- queries encryption of `plain` can depend on; the MAC query needs the CBC answer first -/
+def candEnc (tbl : Tbl) (cfg : EncCfg) (st : Option AesSt) (plain : Bytes) : List String :=
+  match cfg with
+  | .hmac algo key => [qMac algo key plain]
+  | .aes cbc ck mac mk =>
+    let C := cbcOf tbl 0 cbc
+    match aesInput C plain with
+    | none => []
+    | some input =>
+      let iv := match st with | some s => s.ivEnc | none => []
+      let q := qEnc cbc ck iv input
+      match ans tbl q with
+      | none => [q]
+      | some out => [q, qMac mac mk out]
+
+def missing (tbl : Tbl) (qs : List String) : List String := qs.filter fun q => !tbl.contains q
+
+def encryptWith (tbl : Tbl) (fill : UInt8) (cfg : EncCfg) (st : Option AesSt) (plain : Bytes) : Res Bytes × Option AesSt :=
+  match cfg, st with
+  | .hmac algo key, _ => (.ok (hmacEncrypt (macOf tbl fill algo) key plain), st)
+  | .aes cbc ck mac mk, some s =>
+    let (r, s') := aesEncrypt (cbcOf tbl fill cbc) (macOf tbl fill mac) ck mk s plain
+    (r, some s')
+  | .aes .., none => (.ub, st)
+
+def decryptWith (tbl : Tbl) (fill : UInt8) (cfg : EncCfg) (st : Option AesSt) (cipher : Bytes) : Res Bytes × Option AesSt :=
+  match cfg, st with
+  | .hmac algo key, _ => (hmacDecrypt (macOf tbl fill algo) key cipher, st)
+  | .aes cbc ck mac mk, some s =>
+    let (r, s') := aesDecrypt (cbcOf tbl fill cbc) (macOf tbl fill mac) ck mk s cipher
+    (r, some s')
+  | .aes .., none => (.ub, st)
+
+def isAes : EncCfg → Bool
+  | .aes .. => true
+  | _ => false
+
+/-- `aes_cipher::load()` at the start of encrypt/decrypt: consumes the entropy reported by the harness -/
+def ensureLoaded (o : Obj) (ent : Option Bytes) : Option Obj :=
+  if !isAes o.cfg then some o
+  else match o.st, ent with
+    | some _, _ => some o
+    | none, some e => if e.length ≥ Gen.ivEncBytes + Gen.ivDecBytes then some { o with st := some (aesLoad none e).1 } else none
+    | none, none => none
+
+def needStr (qs : List String) : String := "need " ++ ";".intercalate qs
+
+/-- split a trailing `R <hex>` (entropy handed out during the op) off the words -/
+def splitEntropy (ws : List String) : List String × Option Bytes :=
+  match ws.reverse with
+  | h :: "R" :: rest => (rest.reverse, parseHex h)
+  | _ => (ws, none)
+
+def sameCfg : Except CfgErr EncCfg → Except CfgErr EncCfg → Bool
+  | .ok a, .ok b => a == b
+  | .error a, .error b => a == b
+  | _, _ => false
+
+def creation (s : St) (id : String) (r : Except CfgErr EncCfg) : St × String :=
+  match r with
+  | .ok cfg => ({ s with objs := s.objs.insert id { cfg := cfg, st := none, blocked := false } }, "ok")
+  | .error e => ({ s with objs := s.objs.erase id }, "refused " ++ errStr e)
+
+def deriveCands (k : Bytes) : List String :=
+  [Gen.aesDeriveHashSmall, Gen.aesDeriveHashLarge].flatMap fun n =>
+    [qMac n k (C15.ofNats Gen.aesDeriveLabel1), qMac n k (C15.ofNats Gen.aesDeriveLabel2)]
+
+def dash (s : String) : String := if s == "-" then "" else s
+
+def loadStr (o : LoadOut) : String :=
+  match o.result with
+  | .ok (d, t) => s!"ok {t} {toHex d} cleared={boolStr o.cleared}"
+  | .fail => s!"fail cleared={boolStr o.cleared}"
+  | .ub => "ub"
+
+def step (s : St) (line : String) : St × String :=
+  let (ws, ent) := splitEntropy (words line)
+  match ws with
+  | "O" :: rest =>
+    match rest.reverse with
+    | a :: q => ({ s with tbl := s.tbl.insert (" ".intercalate q.reverse) a }, "ok")
+    | [] => (s, "bad-op")
+  | ["seed", _] => (s, "ok")
+  | ["drop", id] => ({ s with objs := s.objs.erase id }, "ok")
+  | ["dsize", n] => (s, match digestSize n with | some k => toString k | none => "none")
+  | ["cbcinfo", n] => (s, match cbcKeySize n with | some k => s!"{Gen.cbcBlock} {k}" | none => "none")
+  | ["hmac", id, algo, k] =>
+    match parseHex k with
+    | some k => creation s id (hmacCipherNew algo k)
+    | none => (s, "bad-op")
+  | ["aes", id, algo, k] =>
+    match parseHex k with
+    | some k =>
+      let miss := missing s.tbl (deriveCands k)
+      if !miss.isEmpty then ({ s with objs := s.objs.erase id }, needStr miss)
+      else
+        let r0 := aesFactoryNew (macOf s.tbl 0) algo k
+        let r1 := aesFactoryNew (macOf s.tbl 255) algo k
+        if sameCfg r0 r1 then creation s id r0 else (s, "oracle-miss")
+    | none => (s, "bad-op")
+  | ["aes2", id, cbc, ck, mac, mk] =>
+    match parseHex ck, parseHex mk with
+    | some ck, some mk => creation s id (aesFactory4New cbc ck mac mk)
+    | _, _ => (s, "bad-op")
+  | ["pool", id, e, h, c, k, hk, ck] =>
+    match parseHex k, parseHex hk, parseHex ck with
+    | some k, some hk, some ck =>
+      let cfg : ClientCfg := { encryptor := dash e, hmac := dash h, cbc := dash c, key := k, hmacKey := hk, cbcKey := ck }
+      let miss := if isPrefix "aes" cfg.encryptor then missing s.tbl (deriveCands k) else []
+      if !miss.isEmpty then ({ s with objs := s.objs.erase id }, needStr miss)
+      else
+        let r0 := poolInit (macOf s.tbl 0) cfg
+        let r1 := poolInit (macOf s.tbl 255) cfg
+        if sameCfg r0 r1 then creation s id r0 else (s, "oracle-miss")
+    | _, _, _ => (s, "bad-op")
+  | ["JI", kid, c, t, d] =>
+    match parseHex c, t.toInt?, parseHex d with
+    | some c, some t, some d =>
+      ({ s with issued := s.issued.insert kid (⟨c, d, t⟩ :: (s.issued.getD kid [])) }, "ok")
+    | _, _, _ => (s, "bad-op")
+  | ["J", kid, now, cookie, acc, t, d, cl] =>
+    match now.toInt?, parseHex cookie, t.toInt?, parseHex d with
+    | some now, some cookie, some t, some d =>
+      let accepted := if acc == "1" then some (t, d) else none
+      (s, boolStr (Spec.judgeLoad (s.issued.getD kid []) now cookie.isEmpty (cookieCipher cookie) accepted (cl == "1")))
+    | _, _, _, _ => (s, "bad-op")
+  | op :: id :: args =>
+    match s.objs.get? id with
+    | none => (s, "no-object")
+    | some o =>
+      if o.blocked then (s, "blocked") else
+      let put (o' : Obj) : St := { s with objs := s.objs.insert id o' }
+      -- one encrypt / decrypt on the object, with the oracle protocol around it
+      let doEnc (plain : Bytes) (k : Res Bytes → String) : St × String :=
+        match ensureLoaded o ent with
+        | none => (s, "no-entropy")
+        | some o =>
+          let miss := missing s.tbl (candEnc s.tbl o.cfg o.st plain)
+          if !miss.isEmpty then (put o, needStr miss) else
+          let (r0, st0) := encryptWith s.tbl 0 o.cfg o.st plain
+          let (r1, st1) := encryptWith s.tbl 255 o.cfg o.st plain
+          if r0 == r1 && st0 == st1 then (put { o with st := st0 }, k r0) else (put { o with blocked := true }, "oracle-miss")
+      let doDec (cipher : Bytes) (k : (Bytes → Res Bytes) → String) : St × String :=
+        match ensureLoaded o ent with
+        | none => (s, "no-entropy")
+        | some o =>
+          let miss := missing s.tbl (candDec o.cfg o.st cipher)
+          if !miss.isEmpty then (put o, needStr miss) else
+          let (r0, st0) := decryptWith s.tbl 0 o.cfg o.st cipher
+          let (r1, st1) := decryptWith s.tbl 255 o.cfg o.st cipher
+          if r0 == r1 && st0 == st1 then (put { o with st := st0 }, k (fun _ => r0)) else (put { o with blocked := true }, "oracle-miss")
+      match op, args with
+      | "enc", [p] =>
+        match parseHex p with
+        | some p => doEnc p resStr
+        | none => (s, "bad-op")
+      | "dec", [c] =>
+        match parseHex c with
+        | some c => doDec c fun f => resStr (f c)
+        | none => (s, "bad-op")
+      | "saveon", [_, t, d] =>
+        match t.toInt?, parseHex d with
+        | some t, some d =>
+          (s, match cookieSave (fun _ => .ub) true t d with | .fail => "fail onServer" | r => resStr r)
+        | _, _ => (s, "bad-op")
+      | "save", [_, t, d] =>
+        match t.toInt?, parseHex d with
+        | some t, some d => doEnc (timeBytes t ++ d) fun r => resStr (cookieSave (fun _ => r) false t d)
+        | _, _ => (s, "bad-op")
+      | "load", [now, c] =>
+        match now.toInt?, parseHex c with
+        | some now, some c =>
+          match cookieCipher c with
+          | none => (s, loadStr (cookieLoad (fun _ => .ub) now c))    -- decrypt is not reached
+          | some cipher => doDec cipher fun f => loadStr (cookieLoad f now c)
+        | _, _ => (s, "bad-op")
+      | _, _ => (s, "bad-op")
+  | _ => (s, "bad-op")
+
+def main : IO Unit := lineLoop ({} : St) step
